@@ -467,8 +467,11 @@ func (w *inotify) handleEvent(inEvent *unix.InotifyEvent, buf *[65536]byte, offs
 			return Event{}, true
 		}
 
+		// EINVAL means the kernel already dropped the watch because the file
+		// was deleted after it was moved: nothing left to clean up, and not
+		// an error to report.
 		err := w.remove(watch.path)
-		if err != nil && !errors.Is(err, ErrNonExistentWatch) {
+		if err != nil && !errors.Is(err, ErrNonExistentWatch) && !errors.Is(err, unix.EINVAL) {
 			if !w.sendError(err) {
 				return Event{}, false
 			}
